@@ -170,3 +170,17 @@ pub fn resolve_auth(a: AuthVar, c: &AuthCtx) -> Option<(usize, bool)> {
         AuthVar::Nobody => None,
     }
 }
+
+/// Ledgers close: sequence += dseq (bounded so that persistent / instance entries never reach
+/// archival, DESIGN 1.2), time += 5 s per ledger.  Temporary entries may expire.
+pub fn advance_ledgers(sim: &crate::host::Sim, ctx: &mut crate::engine::Ctx, dseq: u32) {
+    let seq = sim.seq();
+    let room = (sim.start_seq + crate::host::MAX_SEQ_ADVANCE).saturating_sub(seq);
+    let d = dseq.min(room);
+    sim.set_seq(seq + d);
+    sim.set_time(sim.now().saturating_add(5 * d as u64));
+    ctx.sim_ledgers += d as u64;
+    ctx.sim_seconds = ctx.sim_seconds.saturating_add(5 * d as u64);
+    ctx.count("F10.ledger_advance");
+    ctx.trace_u64(d as u64);
+}
